@@ -159,31 +159,88 @@ def r2_same_line_notion(rep, src, M):
     rep.analysed['call_sites'] += n
 
 
+def _reaches_validate(m, call, key, value, depth=0):
+    """does this call validate (key, value)?  `self.validate_input(key, value)` itself, or a method of the paragraph class (resolved
+    from Deb822 through the MRO) that passes its corresponding parameters to validate_input on every path to its normal exit"""
+    if not (isinstance(call.func, ast.Attribute) and norm(call.func.value) == 'self') or call.keywords or depth > 3:
+        return False
+    if call.func.attr == 'validate_input':
+        return [norm(a) for a in call.args] == [key, value]
+    fn = m.method('Deb822', call.func.attr)
+    if fn is None or [norm(a) for a in call.args] != [key, value]:
+        return False
+    ps = fn.params()
+    if len(ps) != 3:
+        return False
+    g = cfg.CFG(fn.node)
+    inner = [c for c in ast.walk(fn.node) if isinstance(c, ast.Call) and _reaches_validate(m, c, ps[1], ps[2], depth + 1)]
+    rebound = any(isinstance(n, ast.Name) and n.id in ps[1:] and isinstance(n.ctx, ast.Store) for n in walk_no_nested(fn.node))
+    if not inner or rebound:
+        return False
+    ids = {g.node_for(c).id for c in inner}
+    # no path from the entry to the normal exit avoids all validating statements
+    return not g.exists_path(g.entry.id, g.exit.id, avoid=ids)
+
+
+def _self_mutations(fnode):
+    """statements of a method that change the object: stores / deletes through self.<attr>, mutator calls on self.<attr>, and
+    delegations to a base class's __setitem__"""
+    out = []
+    for n in walk_no_nested(fnode):
+        if isinstance(n, (ast.Assign, ast.AugAssign, ast.AnnAssign, ast.Delete)):
+            tgts = n.targets if isinstance(n, (ast.Assign, ast.Delete)) else [n.target]
+            for t in tgts:
+                b = t
+                while isinstance(b, (ast.Subscript, ast.Attribute)) and not (isinstance(b, ast.Attribute) and norm(b.value) == 'self'):
+                    b = b.value
+                if isinstance(b, ast.Attribute) and norm(b.value) == 'self':
+                    out.append((n, 'store ' + norm(t), n.value if isinstance(n, (ast.Assign, ast.AugAssign, ast.AnnAssign)) else None))
+        elif isinstance(n, ast.Call) and isinstance(n.func, ast.Attribute):
+            if n.func.attr == '__setitem__' and norm(n.func.value) != 'self':
+                out.append((n, 'delegation ' + norm(n.func), None))
+            elif n.func.attr in ('add', 'append', 'insert', 'extend', 'update', 'setdefault', 'pop', 'remove', 'discard', 'clear') and \
+                    isinstance(n.func.value, ast.Attribute) and norm(n.func.value.value) == 'self':
+                out.append((n, 'call ' + norm(n.func), None))
+    return out
+
+
 def r3_check_before_commit(rep, src, M):
-    f = src.func('deb822:Deb822.__setitem__')
+    m0 = src.mod('deb822')
+    f = m0.method('Deb822', '__setitem__')          # the method a paragraph really runs: the override, or the inherited one
+    if f is None:
+        raise AnalysisError('deb822:Deb822: no __setitem__ in the class or its bases')
     rep.saw_func(f)
     g = cfg.CFG(f.node)
     params = f.params()
     key, value = params[1], params[2]
-    vcalls = [c for c in ast.walk(f.node) if isinstance(c, ast.Call) and norm(c.func) == 'self.validate_input']
-    stores = [c for c in ast.walk(f.node) if isinstance(c, ast.Call) and
-              (norm(c.func) in ('Deb822Dict.__setitem__',) or (isinstance(c.func, ast.Attribute) and c.func.attr == '__setitem__'))]
-    if not stores:
-        raise AnalysisError('%s: no delegation to the dict store found' % f.site)
-    good = False
-    if vcalls:
-        v = vcalls[0]
-        if [norm(a) for a in v.args] == [key, value]:
+    vcalls = [c for c in ast.walk(f.node) if isinstance(c, ast.Call) and _reaches_validate(m0, c, key, value)]
+    muts = _self_mutations(f.node)
+    if not muts:
+        raise AnalysisError('%s: no delegation to the dict store and no store into the object found' % f.site)
+    # a rebinding of the validated names matters only after the validation (before it, the validator sees the new binding; in the
+    # validating statement itself the name receives what the validating hook returned)
+    vids = {g.node_for(v).id for v in vcalls}
+    rebound = [n for n in walk_no_nested(f.node) if isinstance(n, ast.Name) and n.id in (key, value) and isinstance(n.ctx, ast.Store)
+               and g.node_for(n).id not in vids and any(g.exists_path(vi, g.node_for(n).id) for vi in vids)]
+    first_bad = None
+    for node, what, rhs in muts:
+        mn = g.node_for(node)
+        ok_ = False
+        for v in vcalls:
             vn = g.node_for(v)
-            good = all(g.dominates(vn.id, g.node_for(s).id) and vn.id != g.node_for(s).id for s in stores)
-            # the value must not be rebound between the check and the store
-            for n in walk_no_nested(f.node):
-                if isinstance(n, ast.Name) and n.id in (key, value) and isinstance(n.ctx, ast.Store):
-                    good = False
-    if good:
-        rep.ok('C08.R3', f.site, 'validate before store', 'validate_input(key, value) dominates the store; arguments are not rebound')
+            if vn.id != mn.id and g.dominates(vn.id, mn.id):
+                ok_ = True
+            elif vn.id == mn.id and rhs is not None and any(x is v for x in ast.walk(rhs)):
+                ok_ = True           # the right-hand side (with the check) is evaluated before the store of the same statement
+        if not ok_ and first_bad is None:
+            first_bad = (node, what)
+    if first_bad is None and not rebound:
+        rep.ok('C08.R3', f.site, 'validate before store', 'the validation of (key, value) dominates all %d statements that change the paragraph; arguments are not rebound' % len(muts))
+    elif first_bad is None:
+        rep.fail('C08.R3', f.site, 'validate before store', 'the validated names are rebound (line %d) before the store' % rebound[0].lineno, where=f.where)
     else:
-        rep.fail('C08.R3', f.site, 'validate before store', 'the value is stored without (or before) being validated', where=f.where)
+        rep.fail('C08.R3', f.site, 'validate before store', 'line %d (%s) changes the paragraph without the value having been validated first: %s'
+                 % (first_bad[0].lineno, first_bad[1], 'a rejected assignment leaves that change behind' if vcalls else 'the value is stored unvalidated'), where=f.where)
     # every raise of the validator is ValueError
     fv = src.func('deb822:Deb822.validate_input')
     bad = [r for r in ast.walk(fv.node) if isinstance(r, ast.Raise) and (r.exc is None or not norm(r.exc).startswith('ValueError'))]
@@ -222,7 +279,7 @@ def r3_check_before_commit(rep, src, M):
                 n += 1
                 if fn.site != f.site:
                     rep.fail('C08.R3', fn.site, 'raw store ' + norm(c), 'stores a field value without validation', where=fn.where)
-    if n == 0:
+    if n == 0 and f.cls == 'Deb822':
         raise AnalysisError('positive control failed: no Deb822Dict.__setitem__ call found at all')
     rep.ok('C08.R3', 'deb822', 'only Deb822.__setitem__ performs the raw store', '%d raw store call(s), all inside Deb822.__setitem__' % n)
 
